@@ -108,6 +108,11 @@ def render(case: dict) -> str:
         if kind == "comment" or not MULTI_PREFIX.match(lit):
             return lit_stmt + "\n"
         return ("def holder(flag):\n    if flag:\n        print(\"first\")\n        print(" + lit + ")\n    return 1\n\n\nprint(holder(True))\n")
+    if place == "last_in_def":
+        # the same, but nothing indented follows: a statement that loses its indentation silently leaves the function
+        if kind == "comment" or not MULTI_PREFIX.match(lit):
+            return lit_stmt + "\n"
+        return "def holder():\n    print(\"first\")\n    print(" + lit + ")\n\n\nholder()\n"
     if place == "after_import_in_def":
         if kind == "comment" or not MULTI_PREFIX.match(lit):
             return lit_stmt + "\n"
@@ -128,7 +133,7 @@ def render(case: dict) -> str:
 def layout_cases(rep: Report, t: str):
     kinds = '{"triple", "triple_single", "raw_triple", "bytes_triple", "fstring_triple", "docstring", "single", "concat", "comment"}'
     feats = '{"tab", "trailing", "blanks3", "blanks2", "blank1", "long", "backslash", "hash", "crlf_escape", "indent8"}'
-    places = '{"module", "in_def", "after_decorator", "between_imports", "call_arg", "dict_value", "list_elem_blank", "kwarg_blank", "tuple_elem_blank", "nested_last_stmt", "after_import_in_def", "fsegment"}'
+    places = '{"module", "in_def", "after_decorator", "between_imports", "call_arg", "dict_value", "list_elem_blank", "kwarg_blank", "tuple_elem_blank", "nested_last_stmt", "last_in_def", "after_import_in_def", "fsegment"}'
     lens, maxf = ("{60, 100}", 2) if t == "quick" else ("{60, 79, 100}", 3)
     cfg = "\n".join(["CONSTANTS", f"  Kinds = {kinds}", f"  Features = {feats}", f"  Places = {places}",
                      f"  LineLengths = {lens}", f"  MaxFeatures = {maxf}", "INIT Init", "NEXT Next", "INVARIANT Dump",
